@@ -247,6 +247,7 @@ func RunOnce(sc Scenario, t *dsim.Tape, o Opts) (res RunResult) {
 				x.harnessErr = fmt.Sprintf("panic outside the simulation: %v\n%s", r, debug.Stack())
 			}
 		}()
+		dsim.NewGeneration() // simulated process-level state (pools) starts empty, as in the replay process
 		sc(x)
 	}()
 	if x.tmp != "" {
